@@ -688,7 +688,12 @@ class SimulationBuilder:
             # We need to handle small periods first for set_input to work
             sorted_periods = sorted(
                 unsorted_periods,
-                key=lambda period: (periods.unit_weight(period.unit), period.size),
+                key=lambda period: (
+                    float("inf")
+                    if period.unit == periods.DateUnit.ETERNITY
+                    else period.size_in_days,
+                    periods.unit_weight(period.unit),
+                ),
             )
             for period_value in sorted_periods:
                 values = buffer[str(period_value)]
